@@ -371,7 +371,7 @@ def lipschitz_facts(kind, seed, tid0, nrep):
             if len(ev) < 2 or ev[-1] <= 0:
                 return True
             r = max(ev[-2], 0.0) / ev[-1]
-            return bool(r <= 0.94 or r >= 1 - 1e-12)
+            return bool(r <= 0.9 or r >= 1 - 1e-12)
         if grs is not None:
             try:
                 Ld = np.asarray(df.get_lipschitz(Xo, y), dtype=float)
@@ -386,7 +386,9 @@ def lipschitz_facts(kind, seed, tid0, nrep):
                         true = lam(Xo[:, idx].T @ (Mdiag[:, None] * Xo[:, idx]))
                         f.approx("block_exact", Ld[g], true, 1e-12, 1e-9)
             if hasattr(df, "get_lipschitz_sparse") and kind == "QuadraticGroup":
-                Ls = np.asarray(df.get_lipschitz_sparse(*bund, y), dtype=float)
+                # (the power method starts from a random vector drawn by numba: an unlucky start is power-method
+                #  accuracy, not a defect -- the best of three calls is judged, and none may exceed the true value)
+                Ls = np.max([np.asarray(df.get_lipschitz_sparse(*bund, y), dtype=float) for _ in range(3)], axis=0)
                 for g, idx in enumerate(grs):
                     G = Xo[:, idx].T @ (Mdiag[:, None] * Xo[:, idx])
                     true = lam(G)
@@ -395,7 +397,7 @@ def lipschitz_facts(kind, seed, tid0, nrep):
         if hasattr(df, "get_global_lipschitz"):
             try:
                 Lg = float(df.get_global_lipschitz(Xo, y))
-                Lgs = float(df.get_global_lipschitz_sparse(*bund, y)) if hasattr(
+                Lgs = max(float(df.get_global_lipschitz_sparse(*bund, y)) for _ in range(3)) if hasattr(
                     df, "get_global_lipschitz_sparse") else None
             except Exception as e:  # noqa: BLE001
                 Lg, Lgs = float("nan"), None
